@@ -77,6 +77,7 @@ type Run struct {
 	prefix string
 	hmu    sync.Mutex
 
+	seenHosts   map[string]bool // hostnames the routing probes have met so far: a removed host is probed too
 	step        int
 	faultsLeft  int
 	faultsOff   bool
